@@ -268,7 +268,15 @@ mod numeric_formatting {
             if i > 0 {
                 match integer_fmt[i - 1] {
                     ',' => {
-                        result.insert(0, if j > 0 { ',' } else { ' ' });
+                        if j > 0 && unformatted[j - 1].is_ascii_digit() {
+                            result.insert(0, ',');
+                        } else if j > 0 {
+                            // only the sign is left: it goes next to the digits
+                            result.insert(0, unformatted[j - 1]);
+                            j -= 1;
+                        } else {
+                            result.insert(0, ' ');
+                        }
                     }
                     '#' => {
                         if j > 0 {
